@@ -248,8 +248,15 @@ func (tk stringVal) isError() bool      { return tk.flag&isErrorInString != 0 }
 // IsInt returns true for numerical token with integer value.
 func (tk numberVal) IsInt() bool { return tk.flag&isInteger != 0 }
 
-// Int assumes a numeric token
-func (tk numberVal) Int() int { return int(tk.ValueF) }
+// Int assumes a numeric token. Values beyond the range of int saturate.
+func (tk numberVal) Int() int {
+	if tk.ValueF >= math.MaxInt {
+		return math.MaxInt
+	} else if tk.ValueF <= -math.MaxInt {
+		return -math.MaxInt
+	}
+	return int(tk.ValueF)
+}
 
 const (
 	errBadString     byte = 'b'
@@ -606,12 +613,14 @@ func (tk *tokenizer) tryConsumeNumber(pos Pos) Token {
 	if valueF == 0 {
 		valueF = 0. // workaround -0
 	}
-	_, err := strconv.ParseInt(value, 10, 0)
+	// https://www.w3.org/TR/css-syntax-3/#consume-number : the type is
+	// "integer" unless a dot or an exponent is consumed, whatever the magnitude
+	isInt := !strings.ContainsAny(value, ".eE")
 	n := numberVal{
 		stringVal{
 			Value: value,
 			pos:   pos,
-			flag:  newFlag(isInteger, err == nil),
+			flag:  newFlag(isInteger, isInt),
 		},
 		utils.Fl(valueF),
 	}
